@@ -50,18 +50,22 @@ ArgsOK(params, variadic, args) ==
 GotFor(params, variadic, args) ==
   LET eff == EffParams(params, variadic, Len(args)) IN [i \in 1..Len(args) |-> Received(args[i], eff[i])]
 
-\* result targets: "ok" pointer to the result type, "okany" *interface{}, "wrong" pointer to an unrelated type,
-\* "nilptr" typed nil pointer, "nonptr" not a pointer, "unil" untyped nil
+\* result targets: "ok" pointer to the result type, "okany" *interface{}, "okpre" / "okanypre" the same but already holding
+\* a value (every result is stored, nil results included: a stale value must not survive), "wrong" pointer to an
+\* unrelated type, "nilptr" typed nil pointer, "nonptr" not a pointer, "unil" untyped nil
 TargetsOK(results, targets) ==
   /\ Len(targets) = Len(results)
-  /\ \A i \in 1..Len(targets) : targets[i] \in {"ok", "okany"}
+  /\ \A i \in 1..Len(targets) : targets[i] \in {"ok", "okany", "okpre", "okanypre"}
 
 \* slice targets: "sany" *[]interface{}, "sint" *[]int, "nilp" nil pointer, "nonptr", "notslice" *int, "unil"
+\* ("sfloat" *[]float64, "sstring" *[]string: assignability decides, not convertibility - an int converts to both)
 SliceOK(results, sk) ==
   \/ sk = "sany"
   \/ sk = "sint" /\ \A i \in 1..Len(results) : results[i] = "int"
+  \/ sk = "sstring" /\ \A i \in 1..Len(results) : results[i] = "string"
+  \/ sk = "sfloat" /\ results = <<>>
 
-UntouchedOK(s) == \A i \in 1..Len(s) : s[i] \in {"untouched", "na", "zero"}
+UntouchedOK(s) == \A i \in 1..Len(s) : s[i] \in {"untouched", "na", "zero", "stale"}
 StoredOK(s)    == \A i \in 1..Len(s) : s[i] \in {"set", "zero"}
 
 CheckA(c) ==
